@@ -1,5 +1,6 @@
 """Shared machinery for the /verif checks: build, sharded worker execution with crash
 attribution, CPython oracle pool, known-findings matching, evidence writing."""
+import atexit
 import json, os, sys, subprocess, tempfile, shutil, time, hashlib, random, io, traceback, signal
 import multiprocessing, concurrent.futures
 
@@ -38,22 +39,27 @@ def build(race=False, go='go'):
     if key in _built:
         return _built[key]
     os.makedirs(BUILD, exist_ok=True)
-    shutil.copyfile(os.path.join(REPO, 'go.sum'), os.path.join(HARNESS, 'go.sum.repo'))
-    # go.sum of the harness = repo's go.sum + the harness' own extra sums (porcupine)
-    with open(os.path.join(HARNESS, 'go.sum'), 'w') as f:
-        f.write(open(os.path.join(HARNESS, 'go.sum.repo')).read())
-        extra = os.path.join(HARNESS, 'go.sum.extra')
-        if os.path.exists(extra):
-            f.write(open(extra).read())
+    # go.sum of the harness = repo's go.sum + the harness' own extra sums (porcupine); replaced atomically (checks may start together)
+    sums = open(os.path.join(REPO, 'go.sum')).read()
+    extra = os.path.join(HARNESS, 'go.sum.extra')
+    if os.path.exists(extra):
+        sums += open(extra).read()
+    tmp_sum = os.path.join(HARNESS, 'go.sum.%d' % os.getpid())
+    with open(tmp_sum, 'w') as f:
+        f.write(sums)
+    os.replace(tmp_sum, os.path.join(HARNESS, 'go.sum'))
     name = 'vrun' + ('-race' if race else '') + ('' if go == 'go' else '-' + go)
-    out = os.path.join(BUILD, name)
+    # one binary per driver process: two checks started at the same time never replace each other's executable
+    out = os.path.join(BUILD, '%s.%d' % (name, os.getpid()))
+    atexit.register(lambda p_=out: os.path.exists(p_) and os.remove(p_))
     cmd = [go, 'build', '-tags', 'verif']
     if os.path.abspath(REPO) != '/repo':
         # scratch copy of the repository (mutant calibration): same harness, alternative module file
         alt = os.path.join(HARNESS, 'go.alt.mod')
         with open(alt, 'w') as f:
             f.write(open(os.path.join(HARNESS, 'go.mod')).read().replace('=> /repo', '=> ' + os.path.abspath(REPO)))
-        shutil.copyfile(os.path.join(HARNESS, 'go.sum'), os.path.join(HARNESS, 'go.alt.sum'))
+        with open(os.path.join(HARNESS, 'go.alt.sum'), 'w') as f:
+            f.write(sums)
         cmd.append('-modfile=' + alt)
     if race:
         cmd.append('-race')
